@@ -77,6 +77,27 @@ theorem src_constraint_filter_product_range_eq_model (P : Params) (d : OpDesc) (
   · py_exec [TFLiteSupportedOperators__constraint_filter_product_range, inRange]
   · simp only [Sup.filter_product_range, hk]; rfl
 
+/-- `constraint_filter_range`, SAME padding (`op.attrs["padding"] == Padding.SAME` is the model's `paddingIs d "SAME"`;
+    the key is present: a missing key raises `KeyError` in Python and `exc` in the model) -/
+theorem src_constraint_filter_range_same_eq_model (P : Params) (d : OpDesc) (k : Kern) (sw sh : Int)
+    (hp : paddingIs d n!"SAME" = .ok true) (hs : kernelStride d = .ok (sw, sh)) (hk : kernel d = .ok k) :
+    ∃ b, TFLiteSupportedOperators__constraint_filter_range (.py k.h) (.py k.w) true (.py sw)
+        (.py P.filter.1) (.py P.filter.2) = .ok b ∧
+      Sup.filter_range P d = .ok b := by
+  refine ⟨(inRange P.filter k.w || sw == k.w) && inRange P.filter k.h, ?_, ?_⟩
+  · py_exec [TFLiteSupportedOperators__constraint_filter_range, inRange]
+    try rfl
+  · simp only [Sup.filter_range, hp, hs, hk]; rfl
+
+/-- `constraint_filter_range`, any other padding: `True` whatever the kernel -/
+theorem src_constraint_filter_range_other_eq_model (P : Params) (d : OpDesc) (kh kw sw lo hi : Int)
+    (hp : paddingIs d n!"SAME" = .ok false) :
+    TFLiteSupportedOperators__constraint_filter_range (.py kh) (.py kw) false (.py sw) (.py lo) (.py hi) = .ok true ∧
+      Sup.filter_range P d = .ok true := by
+  refine ⟨?_, ?_⟩
+  · py_exec [TFLiteSupportedOperators__constraint_filter_range]
+  · simp only [Sup.filter_range, hp]; rfl
+
 /-- non-vacuity: a stride of 4 is outside `[1, 3]`, a stride of 2 inside (translated source, evaluated) -/
 example : TFLiteSupportedOperators__constraint_stride_range (.py 4) (.py 2) (.py 1) (.py 3) = .ok false ∧
     TFLiteSupportedOperators__constraint_stride_range (.py 2) (.py 2) (.py 1) (.py 3) = .ok true := by
